@@ -16,6 +16,7 @@ import (
 	"github.com/llir/llvm/ir/types"
 	"pgregory.net/rapid"
 
+	"verif/h/apiedit"
 	"verif/h/corpus"
 	"verif/h/emit"
 	"verif/h/gen"
@@ -145,6 +146,9 @@ func run(m *ir.Module, o op) (res string, p *lx.Panic) {
 type plan struct {
 	Printed bool   // start state: module already printed once
 	Ops     [][]op // per goroutine
+	// Edit (when not 0): after the start state was reached, the module is edited so that the numbers of
+	// unnamed locals move (editAfterNumbering with this seed), and is not printed again before the goroutines start
+	Edit uint64 `json:",omitempty"`
 	// Constructed: the module came from the API, not the parser; a replay parses the text and then
 	// takes the IDs of unnamed globals and locals, and of the metadata definitions listed in
 	// Unnumber, back to "not yet assigned".
@@ -244,6 +248,45 @@ func unprint(m *ir.Module, unnumber []int, stale bool) {
 	}
 }
 
+// editAfterNumbering edits a module whose unnamed values have their numbers (from the parser or from a print)
+// so that the numbers of unnamed locals move: a seeded subset of parameters, blocks and results is renamed
+// (named to unnamed and back), and a stack slot without a name is inserted in front of the entry block of every
+// second function definition. Global numbering is left alone. The same seed makes the same edit on every copy.
+func editAfterNumbering(m *ir.Module, seed uint64) {
+	apiedit.RenameLocals(seed, m)
+	k := seed
+	for _, f := range m.Funcs {
+		if len(f.Blocks) == 0 {
+			continue
+		}
+		k = k*6364136223846793005 + 1442695040888963407
+		if (k>>33)%2 == 0 {
+			b := f.Blocks[0]
+			b.Insts = append([]ir.Instruction{ir.NewAlloca(types.I32)}, b.Insts...)
+		}
+	}
+}
+
+// editedPlan turns pl into a plan for the edited start state. While the first-print finding reproduces (the
+// numbering walk writes IDs under the function's lock, sub-entity printers read them without), the plan keeps
+// to the calls that take that lock: String, WriteTo and Func.LLString.
+func editedPlan(rt *rapid.T, pl plan) plan {
+	pl.Edit = rapid.Uint64Range(1, 1<<62).Draw(rt, "editSeed")
+	if kfFirstPrint {
+		for g := range pl.Ops {
+			for k := range pl.Ops[g] {
+				switch pl.Ops[g][k].Kind {
+				case "String", "WriteTo", "Func":
+				default:
+					pl.Ops[g][k].Kind = "String"
+					kf.Hit("KF-C13-first-print-vs-subentity")
+				}
+			}
+		}
+	}
+	return pl
+}
+
 func genPlan(rt *rapid.T) plan {
 	pl := plan{Printed: rapid.Bool().Draw(rt, "printedOnce")}
 	G := rapid.IntRange(2, 8).Draw(rt, "goroutines")
@@ -286,12 +329,21 @@ func checkCaseWith(t hx.TB, test, x string, pl plan, mk func() *ir.Module) {
 	expect := func(o op) map[string]bool {
 		out := map[string]bool{}
 		for _, printed := range []bool{false, true} {
-			if pl.Printed && !printed {
+			if pl.Printed && !printed && pl.Edit == 0 {
 				continue
 			}
 			fresh := mk()
 			if fresh == nil {
 				return nil
+			}
+			if pl.Edit != 0 {
+				// the start state of an edited case: (printed,) edited; then as it is, or printed once more
+				if pl.Printed {
+					if _, pp := lx.Print(fresh); pp != nil {
+						return nil
+					}
+				}
+				editAfterNumbering(fresh, pl.Edit)
 			}
 			if printed {
 				if _, pp := lx.Print(fresh); pp != nil {
@@ -315,6 +367,9 @@ func checkCaseWith(t hx.TB, test, x string, pl plan, mk func() *ir.Module) {
 			hx.Discard("print_panics(judged_by_C01)")
 			return
 		}
+	}
+	if pl.Edit != 0 {
+		editAfterNumbering(shared, pl.Edit)
 	}
 	hx.RaceReport() // drop anything reported before this case
 	type res struct {
@@ -400,6 +455,10 @@ func TestConcurrentPrinters(t *testing.T) {
 	hx.Check(t, test, hx.N(60, 2500), func(rt *rapid.T) {
 		x := genText(rt)
 		pl := genPlan(rt)
+		if rapid.IntRange(0, 2).Draw(rt, "editedStart") == 0 {
+			pl = editedPlan(rt, pl)
+			hx.Hist("start_edited_after_numbering")
+		}
 		hx.Eval(1)
 		checkCase(rt, test, x, pl)
 		n := 0
